@@ -326,6 +326,13 @@ def evalTest (t : Table) (tests : List (Name × Name)) (redirect : Name) (testNa
   | none => .error .noSuchTest
   | some root => fieldIsInstance t redirect root vcls dt
 
+/-- A history of test evaluations in one environment: `(test name, class of the value, class of its data_type)`.
+The closures hold no state (no memo keyed by object identity), so the environment is not threaded through. -/
+def evalSeq (t : Table) (tests : List (Name × Name)) (redirect : Name) :
+    List (Name × Name × Option Name) → List (Except TestErr Bool)
+  | [] => []
+  | q :: qs => evalTest t tests redirect q.1 q.2.1 q.2.2 :: evalSeq t tests redirect qs
+
 def genRoots : List Name := Gen.PydsdlClasses.instanceTestRoots
 def genRedirect : Name := Gen.PydsdlClasses.redirectClass
 def genTests : Option (List (Name × Name)) := allTests genTable genRoots
